@@ -1,4 +1,145 @@
-import ShootVerif.Spec.Mapper
+import ShootVerif.Proofs.MapperExec
+/-!
+C09 — ToX and FromX never panic and FromX fully resets its receiver.
+
+Model: `execTo` / `execFrom` (Model/Mapper.lean): the allocation preamble (`DestPtrPathList` /
+`SrcPtrPathList`), the read guards (`condofread`) and the statement bodies of mapper.tmpl evaluated
+in `Except` (error = panic) on a reading side whose slots `N` (embedded pointers, pointer fields,
+slices, slice elements) are nil. Spec: `idealTo` / `idealFrom` (Spec/Mapper.lean): every statement
+either runs completely or is skipped.
+
+The theorems hold for EVERY nil assignment `N` (any list of slot names, not only the sampled masks)
+and every receiver state. `WF09` = plain exported structs, mapper type not embedded by pointer (or not
+used), and the emitted path tables are closed: every embedded pointer crossed by a guard entry / an
+allocation entry / a statement's read or write is tested, respectively allocated, earlier in the
+list. That closure is a decidable clause evaluated per input (the driver prints the region); it is
+not derived here from the sort order of the generator — see `C09_tables_partial`.
+-/
 namespace ShootVerif.Mapper
-theorem C09_placeholder : True := trivial
+
+theorem plan_plain_ctors (inp : Input) (hs : inp.srcNew = false) (hd : inp.destNew = false) :
+    (plan inp).destCtor = none ∧ (plan inp).srcCtor = none := by
+  simp [plan, hs, hd, sideParams, ctorMatch]
+
+theorem fnOk (mp : Option Bool) (b : Bool) (cs : List Claim) (h : (mp != some true || !hasFunc cs) = true)
+    (hb : b = true → mp = some true) : ∀ c ∈ cs, fnCallOk b c.strat = true := by
+  intro c hc
+  cases b with
+  | false => cases c.strat <;> rfl
+  | true =>
+    have hm := hb rfl
+    subst hm
+    simp only [bne_self_eq_false, Bool.false_or, Bool.not_eq_true', hasFunc, List.any_eq_false] at h
+    have := h c hc
+    cases hs : c.strat <;> simp_all [fnCallOk]
+
+/-- headline: for every nil assignment, ToX and FromX run without panic and compute the ideal result
+    (each statement executed completely or skipped) — whatever the receiver of FromX held before -/
+theorem C09_no_panic (inp : Input) (h : WF09 inp = true) (N : List String) :
+    execTo inp N = .value (idealTo inp (plan inp) (tables inp (plan inp)) N) ∧
+    ∀ recv, execFrom inp N recv = .value (idealFrom inp (plan inp) (tables inp (plan inp)) N) := by
+  simp only [WF09, Bool.and_eq_true, Bool.not_eq_true', List.all_eq_true] at h
+  obtain ⟨⟨⟨⟨⟨⟨hs, hd⟩, hm⟩, hcD⟩, hcS⟩, htTo⟩, htFrom⟩ := h
+  have hctor := plan_plain_ctors inp hs hd
+  have hm' : (inp.mapperPtr != some true || !hasFunc (plan inp).toStmts) = true ∧
+      (inp.mapperPtr != some true || !hasFunc (plan inp).fromStmts) = true := by
+    cases hmp : (inp.mapperPtr != some true)
+    · simp only [hmp, Bool.false_or, Bool.and_eq_true] at hm ⊢; exact hm
+    · simp
+  constructor
+  · unfold execTo execToP
+    simp only [Bool.false_eq_true, ↓reduceIte, hctor.1]
+    have ha := execAlloc_ok inp.destSem.ptrs (tables inp (plan inp)).destAlloc {} hcD
+    rw [ha]
+    have := execStmts_ideal inp.srcSem inp.destSem (tables inp (plan inp)).destAlloc N
+      (inp.mapperPtr == some true && N.contains "Mapper") (plan inp).toStmts
+      { alloc := [] ++ (tables inp (plan inp)).destAlloc } htTo (by simp)
+      (fnOk inp.mapperPtr _ _ hm'.1 (by
+        intro hb
+        simp only [Bool.and_eq_true, beq_iff_eq] at hb
+        exact hb.1))
+    simp only [List.nil_append] at this
+    simp only [bind, Except.bind, this, ofExcept, idealTo, List.nil_append]
+  · intro recv
+    unfold execFrom execFromP
+    simp only [Bool.false_eq_true, ↓reduceIte, hctor.2]
+    have ha := execAlloc_ok inp.srcSem.ptrs (tables inp (plan inp)).srcAlloc {} hcS
+    rw [ha]
+    have := execStmts_ideal inp.destSem inp.srcSem (tables inp (plan inp)).srcAlloc N
+      (inp.mapperPtr == some true) (plan inp).fromStmts
+      { alloc := [] ++ (tables inp (plan inp)).srcAlloc } htFrom (by simp)
+      (fnOk inp.mapperPtr _ _ hm'.2 (by
+        intro hb
+        simpa using hb))
+    simp only [List.nil_append] at this
+    simp only [bind, Except.bind, this, ofExcept, idealFrom, List.nil_append]
+
+/-- headline: the result of FromX does not depend on the receiver (nil, freshly allocated, or dirty) -/
+theorem C09_reset (inp : Input) (h : WF09 inp = true) (N : List String) (r₁ r₂ : Recv) :
+    execFrom inp N r₁ = execFrom inp N r₂ := by
+  rw [(C09_no_panic inp h N).2 r₁, (C09_no_panic inp h N).2 r₂]
+
+/-- a nil receiver of ToX and a nil argument of FromX yield nil (mapper.tmpl:25-27, 146-148) -/
+theorem C09_nil_in_nil_out (inp : Input) (N : List String) (r : Recv) :
+    execTo inp N true = .nil ∧ execFrom inp N r true = .nil := ⟨rfl, rfl⟩
+
+/-- a statement whose reading path crosses a nil embedded pointer writes nothing; one that does not, and
+    reads a non-nil value, writes exactly that value (with the mapper method applied) -/
+theorem C09_skip_iff (rs ws : SideSem) (N : List String) (w : WSt) (c : Claim) (rl wl : Leaf)
+    (hr : resolveField rs.tree c.rd = some rl) (hw : resolveField ws.tree c.wr = some wl) :
+    ((hops rs.ptrs rl.path).all (nonNil N) = false → idealStmt rs ws N w c = w) ∧
+    ((hops rs.ptrs rl.path).all (nonNil N) = true → ∀ v, idealValue c.strat (readLeaf N rl) = some v →
+      idealStmt rs ws N w c = { w with vals := w.vals ++ [(joinPath wl.path, v)] }) := by
+  constructor
+  · intro h; simp [idealStmt, hr, hw, h]
+  · intro h v hv; simp [idealStmt, hr, hw, h, hv]
+
+/-- the read guard computed by `prepareReadPaths` names only embedded pointers that are proper
+    prefixes of the field's path (so a guard never tests an unrelated pointer). The converse direction
+    and the outermost-first ORDER after `sort.Strings` are the closure clauses of `WF09`. -/
+theorem C09_tables_partial (pp : List (List String)) (f : Field) :
+    ∀ g ∈ readPaths pp f, g ∈ pp ∧ ∃ i, 0 < i ∧ i < f.path.length ∧ g = f.path.take i := by
+  intro g hg
+  simp only [readPaths, List.mem_filter, List.mem_filterMap, List.mem_range, List.contains_iff_mem] at hg
+  obtain ⟨⟨i, hi, he⟩, hp⟩ := hg
+  refine ⟨hp, i, ?_⟩
+  by_cases h0 : i = 0
+  · simp [h0] at he
+  · simp only [h0, ↓reduceIte, Option.some.injEq] at he
+    exact ⟨Nat.pos_of_ne_zero h0, hi, he.symm⟩
+
+/-! ### non-vacuity -/
+
+/-- src {*Base{ID int; *Inner{X string}}; P *Sub; Subs []*Sub}  dest {*Core{ID int}; X string; P Sub; Subs []Sub} -/
+def exWF09 : Input :=
+  let sub := Ty.named .src "Sub" (.struct "N:int")
+  let subD := Ty.named .dest "Sub" (.struct "N:int,Other:string")
+  { src := .embed "Base" true (.field { name := "ID", ty := .basic "int" }
+              (.embed "Inner" true (.field { name := "X", ty := .basic "string" } .nil) .nil))
+            (.field { name := "P", ty := .ptr sub } (.field { name := "Subs", ty := .slice (.ptr sub) } .nil)),
+    dest := .embed "Core" true (.field { name := "ID", ty := .basic "int" } .nil)
+            (.field { name := "X", ty := .basic "string" } (.field { name := "P", ty := subD }
+              (.field { name := "Subs", ty := .slice subD } .nil))) }
+
+example : WF09 exWF09 = true ∧ region09 exWF09 = "WF" := by decide
+example : (tables exWF09 (plan exWF09)).destAlloc = [["Core"]] ∧
+    (tables exWF09 (plan exWF09)).srcAlloc = [["Base"], ["Base", "Inner"]] := by decide
+example : (execTo exWF09 ["Base.Inner", "P", "Subs#1"]).show (leavesOf exWF09.dest) =
+    "Core.ID=Base.ID;X=zero;P=zero;Subs=[Subs,zero]" := by decide
+example : (execTo exWF09 ["Base"]).show (leavesOf exWF09.dest) = "Core.ID=zero;X=zero;P=P;Subs=[Subs,Subs]" := by decide
+
+/-! ### finding region -/
+
+/-- `*Mapper` embedded by pointer, value-receiver methods: FromX panics on every input, ToX when the pointer is nil -/
+def wPtrMapper : Input :=
+  { src := .field { name := "Count", ty := .basic "int" } .nil,
+    dest := .field { name := "Count", ty := .basic "string" } .nil,
+    fns := [{ name := "Fn0", param := .basic "int", result := .basic "string" },
+            { name := "Fn1", param := .basic "string", result := .basic "int" }],
+    mapperPtr := some true, conv := [(.basic "int", .basic "string")] }
+
+theorem C09_F_ptrMapper_witness :
+    region09 wPtrMapper = "F_ptrMapper" ∧
+    obs09 wPtrMapper ["Mapper"] [] ["0", "1"] [""] ≠ spec09 wPtrMapper ["Mapper"] [] ["0", "1"] [""] := by decide
+
 end ShootVerif.Mapper
